@@ -211,10 +211,13 @@ func VerifC19Update() {
 		vsym.Assert(c.Equals(b), "stream-equals")
 		vCheckBSI(c, m, "stream")
 	case 8: // Increment on non-negative values
-		for i := range m.ps {
-			vsym.Assume(m.ps[i].val >= 0)
-		}
 		c := vStepCol()
+		for i := range m.ps {
+			// othneg = 1: only the incremented column has to be non-negative, the other columns may hold negative values
+			if vsym.Param("othneg") != 1 || m.ps[i].col == c {
+				vsym.Assume(m.ps[i].val >= 0)
+			}
+		}
 		fs := NewBitmap()
 		fs.Add(c)
 		_, ex := m.get(c)
